@@ -1,5 +1,5 @@
 (* Shared case format of the unmarshaler checks (C10, C13, C20 restored part). *)
-From Errdef Require Import Base.Str Base.Outcome Model.Core Model.Convert Model.Unmarshal.
+From Errdef Require Import Base.Str Base.Outcome Model.Core Model.Convert Model.Unmarshal Model.UnmarshalGL.
 
 (* observed values: what the harness can see of a bound or unknown field value *)
 Inductive oval :=
@@ -150,3 +150,24 @@ Definition corr (c : case) : bool :=
   | UFail fs => existsb (failure_matches o) fs && match uo_res o with None => true | Some _ => false end
   | UPanic _ => str_eqb (uo_class o) "panic"
   end.
+
+(* ---- the unmarshaler as srcgen translated it from the source in this run (Gen/GoLiteSrc.v, interpreted by
+   Model/GoLite.v with the primitives of Model/UnmarshalGL.v) returns what the hand-written model returns.
+   Proofs/UnmarshalSrc.v proves this for every input; evaluating it on the cases as well tells, when an edit of
+   unmarshaler/unmarshaler.go breaks that proof, whether the translated code still agrees with the model and the
+   implementation on the inputs of the run. ---- *)
+Definition fail_eqb (a b : failure) : bool :=
+  str_eqb (fl_class a) (fl_class b) && str_eqb (fl_kind a) (fl_kind b) && str_eqb (fl_field a) (fl_field b).
+Definition ures_eqb (a b : ures rerr) : bool :=
+  match a, b with
+  | UOk x, UOk y => orerr_eqb (orerr_of x) (orerr_of y)
+  | UFail f, UFail g => list_eqb fail_eqb f g
+  | UPanic _, UPanic _ => true
+  | _, _ => false
+  end.
+Definition src_agrees (c : case) : bool :=
+  match src_unmarshal_top (fuel_for (c_in c)) (c_cfg c) (c_in c) (c_decerr c) with
+  | Some r => ures_eqb r (model_res c)
+  | None => false
+  end.
+Definition corr_src (c : case) : bool := corr c && src_agrees c.
